@@ -1013,6 +1013,9 @@ def module_constants(tree: ast.Module, modname: str, known_constants: Set[str]) 
             if tgt in vals:
                 continue
             v2 = _Renamer({k: v for k, v in vals.items()}, {}).visit(copy.deepcopy(val)) if vals else val
+            # a read-only view of a literal table reads like the table: MappingProxyType({...})
+            if isinstance(v2, ast.Call) and not v2.keywords and len(v2.args) == 1 and ast.unparse(v2.func) in ("MappingProxyType", "types.MappingProxyType") and isinstance(v2.args[0], ast.Dict):
+                v2 = v2.args[0]
             if _is_literal(v2):
                 vals[tgt] = v2
                 changed = True
